@@ -239,10 +239,11 @@ impl Octahedron {
     pub fn build(self) -> Mesh<Normal3> {
         let mut b = Mesh::builder();
         for (i, vs) in Self::FACES.iter().enumerate() {
+            let n = Self::NORMS[i].normalize();
             b.push_face(3 * i, 3 * i + 1, 3 * i + 2);
             for vi in *vs {
                 let pos = Self::COORDS[Self::VERTS[vi].0];
-                b.push_vert(pos, Self::NORMS[i]);
+                b.push_vert(pos, n);
             }
         }
         b.build()
